@@ -25,8 +25,11 @@ RULE = ("for every generated description (grid, probes, random compositions) and
         "of valid PDUs, every byte string of length <= 3 over {first bytes of all prefixes, "
         "00,01,7F,FF}, random strings up to 64 bytes and over-long strings, decoded through "
         "Request/Response.decode, DiagService.decode_message, DiagLayer.decode and "
-        "decode_response. Distinct+non-trivial = distinct (object kind, layout, byte-string "
-        "class, outcome class)")
+        "decode_response; streams of tester/ECU telegrams through the snoop tool's "
+        "handle_telegram (shadow of its last-request state kept with the API); a layer using the "
+        "parameter kinds whose coding is unimplemented. Every call runs under a wall-clock "
+        "trigger + executed-line budget (non-termination). Distinct+non-trivial = distinct "
+        "(object kind, layout, byte-string class, outcome class)")
 MIN_EVALS = {"quick": 60000, "thorough": 1000000}
 ASSUMPTIONS = [
     "only odxtools.exceptions.DecodeError (and subclasses) counts as the library's decode "
